@@ -277,7 +277,7 @@ def run(cfg):
     # two equal-sized small values plus one oversize value; under the default limit one value of every picklable kind.
     searches = [
         ('fits-one', s, [0, 1, big], cfg.pick(4, 5)),
-        ('fits-two', 2 * s, [0, 1, big], cfg.pick(4, 5)),
+        ('fits-two', 2 * s, [0, 1, big], cfg.pick(3, 5)),
         ('default', None, [0] + list(range(2, len(values))), cfg.pick(2, 3)),
         # entries of different sizes where the larger one fills the cache exactly: a cached key is rewritten with a value
         # that fits only when everything else is evicted (seeded change C16a needed this relation and was missed without it)
